@@ -577,6 +577,7 @@ def run(tier):
               'it (shared with C14.R6)', sub14)
     sub12 = Check('C12', 'other', tier, [], [])
     chk.guard(c12.rule_r5, sub12, prog)
+    chk.guard(c12.rule_r5_depth, sub12, prog)
     # completeness of the walk, not its order
     Check.restrict(sub12, lambda wh, what: '[order]' not in what
                    and 'reversed' not in what
@@ -598,6 +599,18 @@ def run(tier):
     Check.restrict(sub04, lambda wh, what: 'loop over' in what
                    or 'continues with the next mutator' in what)
     chk.adopt('C02.R10', 'a failure of one mutator costs only its own candidates: the loop over the mutators (and over the nodes) goes on, so the sweep that declares the fixed point has really asked every mutator at every node (shared with the per-mutator part of C04.R1)', sub04)
+    # the candidates reach the workers intact: a leaf that does not survive
+    # pickling makes every check of the input fail in the worker, which the
+    # consumer reports as "rejected" - a fixed point that was never tested
+    # (shared with the text-carrying part of C12.R1)
+    sub12b = Check('C12', 'other', tier, [], [])
+    chk.guard(c12.rule_r1, sub12b, prog)
+    Check.restrict(sub12b, lambda wh, what: not any(
+        k in what for k in ('hash width', '(id, hash) restored',
+                            'slots restored', "b'(': fields")))
+    chk.adopt('C02.R11', 'inputs cross the process boundary intact (tags, '
+              'leaf records, cursor of the pickle format; shared with '
+              'C12.R1)', sub12b)
     extra = None
     if tier == 'thorough':
         from .. import selftest
